@@ -102,14 +102,29 @@ Theorem C04_kernels_generated : forall p creator dep mkt idx amount wc wt fee,
 Proof. intros. split; reflexivity. Qed.
 Print Assumptions C04_kernels_generated.
 
+From Sge Require Import Proofs.GenSettle.
 (* the settlement of one participation in the model IS x/orderbook/keeper settleParticipation, generated from the source with its payments and
    hook calls emitted as effects in order (payment out of the liquidity pool / the house-fee collector, win / loss / refund / fee-refund hook)
-   and the participation record it stores: same refusals (already settled, market not resolved), same amounts, same receivers, same order *)
-Theorem C04_settle_participation_generated : forall effs0 stored0 p mstatus creator, p_reimb p = 0 ->
-  K_settle_settleParticipation (settle_state effs0 stored0) (gp_of p) (gmk mstatus creator) =
+   and the participation record it stores (replacing the record of the same index): same refusals (already settled, market not resolved),
+   same amounts, same receivers, same order *)
+Theorem C04_settle_participation_generated : forall effs0 parts p mstatus creator, p_reimb p = 0 ->
+  K_settle_settleParticipation (settle_state effs0 parts) (gp_of p) (gmk mstatus creator) =
   match settle_participation p mstatus creator with
   | None => None
-  | Some (p', effs) => Some (settle_state (effs0 ++ effs) p')
+  | Some (p', effs) => Some (settle_state (effs0 ++ effs) (upd (part_is (p_idx p)) p' parts))
   end.
 Proof. exact gen_settleParticipation. Qed.
 Print Assumptions C04_settle_participation_generated.
+
+(* the per-book batch, batchSettlementOfParticipation (loop over the book's participations with the budget, the settled count and the
+   "all settled" flag), generated from the source, IS the model's batch_parts: the same participations are paid in the same order with the
+   same effects, the same count is reported and the book is reported completely settled in exactly the same cases *)
+Theorem C04_batch_generated : forall effs0 ps mstatus creator limit,
+  NoDup (map p_idx ps) -> Forall part_ok ps ->
+  K_settle_batchSettlementOfParticipation (settle_state effs0 ps) (gmk mstatus creator) limit =
+  match batch_parts ps mstatus creator limit 0 with
+  | None => None
+  | Some (alls, c, ps', effs) => Some (settle_state (effs0 ++ effs) ps', (alls, c))
+  end.
+Proof. exact gen_batch. Qed.
+Print Assumptions C04_batch_generated.
